@@ -718,7 +718,8 @@ Definition x_hostres (r : outcome (option host)) : xval :=
              (L (N 3))                           get_default
              (L (N 4) name)                      clear_page / clear_file target
              (L (N 5) (L [filter]))              clear_*_caches targets (sorted ids)
-             (L (N 6) (L [sni]) (L hosthdr...))  handle_connection's choice *)
+             (L (N 6) (L [sni]) (L hosthdr...))  handle_connection's choice
+             (L (N 7) (L [sni]) (L hosthdr...) authority)  get_from_request, the URI has this authority *)
 Fixpoint insert_sorted (n : nat) (l : list nat) : list nat :=
   match l with
   | [] => [n]
@@ -731,6 +732,11 @@ Definition run_query (v : version) (c : collection) (q : xval) : xval :=
   | XL [XN 0; sni; hh] =>
       match d_option d_B sni, d_list d_B hh with
       | Some sni, Some hh => x_hostres (get_from_request v c sni hh)
+      | _, _ => bad_input
+      end
+  | XL [XN 7; sni; hh; XB authority] =>
+      match d_option d_B sni, d_list d_B hh with
+      | Some sni, Some hh => x_hostres (get_from_request_uri true v c sni hh (Some authority))
       | _, _ => bad_input
       end
   | XL [XN 1; XB name] => x_hostres (get_host v c name)
@@ -788,6 +794,12 @@ Definition run_spec_query (ops : list op) (q : xval) : xval :=
       end
   (* get_host: the owner of exactly this name; get_or_default: the reference resolver on the name;
      get_default; clear_page / clear_file; clear_*_caches: the ids reached, ascending *)
+  (* get_from_request on a request whose URI has an authority: the Host header if it is text, else the authority *)
+  | XL [XN 7; sni; hh; XB authority] =>
+      match d_option d_B sni, d_list d_B hh with
+      | Some sni, Some hh => XL [XN 7; x_ref (reference_general ops sni (first_some (text_hd hh) (Some authority)))]
+      | _, _ => bad_input
+      end
   | XL [XN 1; XB name] => XL [XN 1; x_ref (option_map hid (owner O (map snd ops) name))]
   | XL [XN 2; XB name] => XL [XN 2; x_ref (reference_general ops (Some name) None)]
   | XL [XN 3] => XL [XN 3; x_ref (reference_general ops None None)]
